@@ -253,6 +253,24 @@ def info_variant(repo):
 INFO_VARIANT = {"v": "plain"}
 
 
+def best_fit_variant(repo):
+    """which Fit.best_fit the tree has: 'as-written' (start value -inf, strict `>` on every child) or 'skips-none'
+    (children whose max_log_likelihood `is None` are skipped and no -inf start value is used: the proposed repair).
+    Only selects which MODEL the correspondence compares with; the oracle does not depend on it."""
+    tree = ast.parse(open(os.path.join(repo, FIT_MODEL)).read())
+    for cls in [n for n in tree.body if isinstance(n, ast.ClassDef) and n.name == "Fit"]:
+        for fn in [n for n in cls.body if isinstance(n, ast.FunctionDef) and n.name == "best_fit"]:
+            src = ast.unparse(fn)
+            skips = any(isinstance(n, ast.If) and "max_log_likelihood is None" in ast.unparse(n.test)
+                        and any(isinstance(b, ast.Continue) for b in n.body) for n in ast.walk(fn))
+            if skips and "best_fit is None or" in src and "inf" not in src:
+                return "skips-none"
+    return "as-written"
+
+
+BEST_FIT_VARIANT = {"v": "as-written"}
+
+
 def generate(repo, outfile):
     classes = search_classes(repo)
     uf, src = grid_id_uses_folder(repo)
@@ -491,6 +509,93 @@ def gen_fit(rng, idx, kind="single", real=None, allow_arith=False, plain=False):
     return f
 
 
+# ----- likelihood profiles of the cells of a grid search ------------------------------------------------
+# The best fit of a grid search is "the cell with the highest likelihood": the profiles put that cell at every
+# sign (exactly 0.0 above negatives, 0.0 below a positive, all positive, mixed), make cells tie (at 0.0 and
+# elsewhere), use -inf (the figure of merit of a failed evaluation) in some or in all cells, and leave the last
+# cell without samples (killed before its first update: its database fit has no likelihood at all).
+NEG_INF = float("-inf")
+GRID_PROFILES = ["zero-best", "zero-below-positive", "zero-tie", "tie", "signed", "all-positive", "minus-inf-some",
+                 "zero-above-minus-inf", "minus-inf-all", "cell-without-samples", "cell-without-samples-zero-best"]
+
+
+def cell_tops(rng, profile, ncell):
+    """the maximum log likelihood of every cell, in the order the grid search runs them"""
+    def neg():
+        return 0.0 - dy(rng, 1, 32, 4)
+
+    def pos():
+        return dy(rng, 1, 32, 4)
+
+    def signed():
+        return rng.choice([neg(), neg(), pos(), pos(), 0.0])
+    if profile == "zero-best":
+        tops = [0.0] + [neg() for _ in range(ncell - 1)]
+    elif profile == "zero-below-positive":
+        tops = [0.0, pos()] + [signed() for _ in range(ncell - 2)]
+    elif profile == "zero-tie":
+        tops = [0.0, 0.0] + [neg() for _ in range(ncell - 2)]
+    elif profile == "tie":
+        v = rng.choice([neg(), pos()])
+        tops = [v, v] + [v - dy(rng, 1, 16, 4) for _ in range(ncell - 2)]
+    elif profile == "signed":
+        tops = [signed() for _ in range(ncell)]
+    elif profile == "all-positive":
+        tops = [pos() for _ in range(ncell)]
+    elif profile == "minus-inf-some":
+        tops = [NEG_INF, signed()] + [rng.choice([NEG_INF, signed()]) for _ in range(ncell - 2)]
+    elif profile == "zero-above-minus-inf":
+        tops = [0.0] + [NEG_INF] * (ncell - 1)
+    elif profile == "minus-inf-all":
+        tops = [NEG_INF] * ncell
+    elif profile == "cell-without-samples":
+        tops = [signed() for _ in range(ncell)]
+    elif profile == "cell-without-samples-zero-best":
+        tops = [0.0] + [neg() for _ in range(ncell - 1)]
+    else:
+        raise ValueError(profile)
+    if profile.startswith("cell-without-samples"):
+        head = tops[:-1]
+        rng.shuffle(head)
+        return head + tops[-1:]      # the last cell is the one that never got samples
+    rng.shuffle(tops)
+    return tops
+
+
+def cell_script(rng, top, interrupt=None):
+    n = rng.choice([1, 2, 2, 3])
+    logl = [top] + [top - dy(rng, 1, 32, 4) for _ in range(n - 1)]    # (-inf - x = -inf)
+    rng.shuffle(logl)
+    return {"vectors": [[dy(rng, 0, 8) for _ in range(12)] for _ in range(n)], "logl": logl,
+            "logp": [rng.choice([0.0, -0.5]) for _ in range(n)], "interrupt": interrupt}
+
+
+def gen_profile_grid(rng, idx, profile):
+    """a grid search whose cells follow one likelihood profile"""
+    g = gen_fit(rng, idx, kind="grid")
+    if profile in ("zero-tie", "tie", "minus-inf-some", "zero-below-positive") or profile.startswith("cell-without-samples"):
+        while len(g["scripts"]) < 4 and rng.random() < 0.7:
+            g = gen_fit(rng, idx, kind="grid")
+    tops = cell_tops(rng, profile, len(g["scripts"]))
+    g["scripts"] = [cell_script(rng, t) for t in tops]
+    if profile.startswith("cell-without-samples"):
+        g["scripts"][-1]["interrupt"] = "before_samples"
+    g["profile"] = profile
+    return g
+
+
+def grid_labels(f):
+    """labels (from the case) of the two recorded defects of Fit.best_fit"""
+    out = set()
+    if f.get("type") != "grid":
+        return out
+    if any(sc_.get("interrupt") == "before_samples" for sc_ in f["scripts"]):
+        out.add("grid:cell-without-likelihood")
+    if all(sc_.get("interrupt") != "before_samples" and max(sc_["logl"]) == NEG_INF for sc_ in f["scripts"]):
+        out.add("grid:all-cells-minus-inf")
+    return out
+
+
 PREFIT_STAGES = ["model_info", "info", "info_partial", "info_unserialisable", "search", "search_partial",
                  "model", "model_partial", "metadata"]
 STAGE_COQ = {"model_info": "AtModelInfo", "info": "AtInfo", "info_partial": "AtInfoPartial", "info_unserialisable": "AtInfoPartial",
@@ -683,6 +788,17 @@ def gen_cases(ctx, classes):
             if singles:
                 sc["copies"] = [{"fit": rng.choice(singles), "to": "copy"}]
         scen.append(sc)
+    # (3) grid searches whose cells follow each likelihood profile (best cell exactly 0.0, positive, ties, -inf,
+    #     a cell without samples): every profile in every run
+    for rep in range(1 if not thorough else 4):
+        for j, profile in enumerate(GRID_PROFILES):
+            fits = [gen_profile_grid(rng, 0, profile)]
+            if rng.random() < 0.3:
+                fits.append(gen_profile_grid(rng, 1, rng.choice(GRID_PROFILES[:8])))
+            elif rng.random() < 0.3:
+                fits.append(gen_fit(rng, 1, plain=True))
+            scen.append({"kind": "scenario", "flavour": "dir", "fits": fits, "completed_only": thorough and rng.random() < 0.15,
+                         "shape": "grid-profile:" + profile})
     for sc_ in scen:
         if not sc_.get("two_dirs"):
             sc_["disk_view"] = True
@@ -728,7 +844,7 @@ def model_labels(spec):
 
 def fit_labels(f):
     """labels of ONE fit spec (each label names a recorded finding class)"""
-    out = set(model_labels(f["model"])) | info_labels(f.get("info"))
+    out = set(model_labels(f["model"])) | info_labels(f.get("info")) | grid_labels(f)
     if f["search"]["cls"] != "Scripted":
         out.add("search-class:" + f["search"]["cls"])
     pf = f.get("prefit")
@@ -762,6 +878,10 @@ EXPECTED_FAILURE = {
     "model:fixed-component": (r"^fit written under ", True),
     "model:arith-prior": (r"^fit written under |^add_directory raised KeyError", True),
     "info:non-string-scalar": (r"^fit \w+: info ", True),
+    # Fit.best_fit as written: a cell without likelihood makes it raise, cells all at -inf make it return None; the
+    # message carries what the DATABASE shows (cells without likelihood / all cells at -inf), so nothing else matches
+    "grid:cell-without-likelihood": (r"^grid search \S+ \[(directory|session) route\]: \S+ raised TypeError \([1-9]\d* of its \d+ cells hold no likelihood\)", True),
+    "grid:all-cells-minus-inf": (r"^grid search \S+ \[(directory|session) route\]: \S+ returned None \(all its \d+ cells hold -inf\)", True),
     # (the classes of the findings repaired in /repo -- Drawer search.json, grid searches sharing a tag, re-run fit with a
     #  truncated json, container info values, single Model with nested paths -- explain nothing any more)
 }
@@ -1041,12 +1161,15 @@ def coq_case(c, r):
     rest = [p for p in entries if p not in order]
     folders = [folder_of(entries[p]) for p in order + rest]
     best = []
+    byp = r["scrape"].get("best_fits_by_parent", {})
     for f in r["scrape"].get("fits", []):
-        if f["is_grid_search"] and unique_best(f, r["scrape"]["fits"]):
+        if f["is_grid_search"]:
             bf = f.get("best_fit")
-            best.append(cpair(cstr(f["id"]), c_ostr(bf if isinstance(bf, str) and not bf.startswith("exc:") else None)))
-    return "CDir %s %s %s %s %s" % (cbool(c.get("completed_only", False)), clist([c_folder(x) for x in folders]),
-                                    c_observed(r["scrape"]), clist(best), c_paths(unfaithful)), None
+            obs = "ObsBestRaised" if (isinstance(bf, str) and bf.startswith("exc:")) else "ObsBestNone" if bf in ("none", None) else "(ObsBestId %s)" % cstr(bf)
+            best.append("(%s, %s, %s)" % (cstr(f["id"]), obs, c_strs(byp.get(f["id"], []))))
+    return "CDir %s %s %s %s %s %s" % (cbool(c.get("completed_only", False)), clist([c_folder(x) for x in folders]),
+                                       c_observed(r["scrape"]), clist(best), c_paths(unfaithful),
+                                       cbool(BEST_FIT_VARIANT["v"] == "skips-none")), None
 
 
 def coq_disk_case(c, r):
@@ -1068,14 +1191,6 @@ def coq_disk_case(c, r):
     return "CDisk %s %s %s %s" % (cbool(c.get("completed_only", False)), clist(ds), clist(found), c_observed(r["scrape"]))
 
 
-def unique_best(gs, fits):
-    lls = [f["max_log_likelihood"] for f in fits if f["parent_id"] == gs["id"]]
-    if not lls or any(x is None for x in lls):
-        return True  # the model predicts the TypeError / no children case too
-    vals = [unhex(x) for x in lls]
-    return vals.count(max(vals)) == 1
-
-
 # ----- property oracle (independent of the Coq model) -------------------------------
 
 def oracle_settings(c, r):
@@ -1092,6 +1207,42 @@ def oracle_settings(c, r):
     if r["reload_name"] != (c.get("name") or "") or r["reload_tag"] != c.get("tag"):
         return "%s: name/tag %r/%r reloaded as %r/%r" % (c["cls"], c.get("name"), c.get("tag"), r["reload_name"], r["reload_tag"])
     return None
+
+
+def best_fit_errors(route, where, g, rows, st):
+    """The best fit of grid search `g` (a database row) must be the cell with the highest likelihood, through every
+    route the library offers: Fit.best_fit on the loaded fit, .best_fit on the fit the aggregator hands out, and
+    aggregator.grid_searches().best_fits().  Cells without samples hold no likelihood and cannot be the best fit; as
+    soon as ONE cell holds a likelihood (of whatever sign, 0.0 and -inf included) there is a highest one."""
+    cells = [rows[k] for k in g["children"] if k in rows]
+    held = {x["id"]: unhex(x["max_log_likelihood"]) for x in cells if x["max_log_likelihood"] is not None}
+    if not held:
+        return []
+    top = max(held.values())
+    best = sorted(k for k, v in held.items() if v == top)
+    lacking = len(cells) - len(held)
+    errs = []
+    head = "grid search %s [%s route]: " % (where, route)
+    want = "the highest likelihood %r is held by cell%s %s" % (top, "s" if len(best) > 1 else "", ",".join(best))
+    outcomes = [("Fit.best_fit", g.get("best_fit"))]
+    if "best_fit_via_aggregator" in st:
+        outcomes.append(("grid_searches()[i].best_fit", st["best_fit_via_aggregator"].get(g["id"])))
+    for name, b in outcomes:
+        if isinstance(b, str) and b.startswith("exc:"):
+            why = ("(%d of its %d cells hold no likelihood)" % (lacking, len(cells))) if (b == "exc:TypeError" and lacking) else "(every cell holds a likelihood)"
+            errs.append(head + "%s raised %s %s; %s" % (name, b[4:], why, want))
+        elif b == "none" or b is None:
+            why = ("(all its %d cells hold -inf)" % len(cells)) if (top == NEG_INF and not lacking) else "(a cell holds a likelihood above -inf)"
+            errs.append(head + "%s returned None %s; %s" % (name, why, want))
+        elif b not in best:
+            errs.append(head + "%s gives cell %s (likelihood %r); %s" % (name, b, held.get(b), want))
+    if "best_fits_by_parent" in st:
+        q = st["best_fits_by_parent"].get(g["id"], [])
+        if not q:
+            errs.append(head + "grid_searches().best_fits() lists no cell of it; " + want)
+        elif not set(q) <= set(best):
+            errs.append(head + "grid_searches().best_fits() lists %s; %s" % (",".join(q), want))
+    return errs
 
 
 def oracle_scenario(c, r):
@@ -1235,18 +1386,16 @@ def oracle_scenario(c, r):
             errs.append("grid search %s: parent fit id %s is not its folder name" % (e["rel"], g["id"]))
         if bool(g["is_complete"]) != e["completed"]:
             errs.append("grid search %s: is_complete %r but .completed %s" % (e["rel"], g["is_complete"], e["completed"]))
-        lls = [rows[k]["max_log_likelihood"] for k in cells if k in rows]
-        if cells and len(lls) == len(cells) and all(x is not None for x in lls):
-            m = max(unhex(x) for x in lls)
-            b = g.get("best_fit")
-            if b not in rows or rows[b]["max_log_likelihood"] is None or unhex(rows[b]["max_log_likelihood"]) != m or b not in cells:
-                errs.append("grid search %s: best fit %s is not a cell of highest likelihood" % (e["rel"], b))
-            elif not c.get("two_dirs") and not any(x in cells and unhex(rows[x]["max_log_likelihood"]) == m for x in sc.get("best_fits", [])):
-                errs.append("grid search %s: aggregator best_fits() misses its best cell" % e["rel"])
+        errs += best_fit_errors("directory", e["rel"], g, rows, sc)
     # agreement with the direct (session) route, scripted fits only
     dr = r.get("direct")
     if dr:
         drows = {f["id"]: f for f in dr.get("fits", [])}
+        if dr.get("query_exc"):
+            errs.append("session route: the grid-search queries raised %s" % dr["query_exc"])
+        for g in dr.get("fits", []):
+            if g["is_grid_search"] and not dr.get("exc"):
+                errs += best_fit_errors("session", g["id"], g, drows, dr)
         for f, rec, drec in zip(c["fits"], r["fits"], dr.get("fits_run", [])):
             if f["search"]["cls"] != "Scripted" or drec.get("exc") or drec.get("skipped") or dr.get("exc"):
                 continue
@@ -1295,6 +1444,10 @@ def oracle_scenario(c, r):
                             if a[kk] != b[kk]:
                                 errs.append("grid cell %s: %s differs between routes" % (k, kk))
                                 break
+                    qa = sc.get("best_fits_by_parent", {}).get(ga[0]["id"], [])
+                    qb = dr.get("best_fits_by_parent", {}).get(pb["id"], [])
+                    if "best_fits_by_parent" in dr and qa != qb:
+                        errs.append("grid search %s: best_fits() differs between routes (%s vs %s)" % (f["name"], qa, qb))
     return errs
 
 
@@ -1318,7 +1471,9 @@ def run(ctx):
                 "(b) scenarios: 2-4 fits (scripted single fits with generated model shape / samples / interruption point / info / layout "
                 "zip|folder|both / 1-3 combined analyses, fits whose pre-fit output (save_all) is interrupted at each of its 9 points -- first run "
                 "and re-run, harness-side fault injection incl. a kill inside json.dump and an unserialisable info value -- beside healthy fits, "
-                "grid searches with 2 or 4 cells, real search classes, copied folders) written by the "
+                "grid searches with 2 or 4 cells, real search classes, copied folders; one grid search per likelihood profile of its cells in every run: "
+                "best cell exactly 0.0 above negatives / above -inf, 0.0 below a positive, all positive, mixed signs, ties at 0.0 and elsewhere, "
+                "-inf in some / all cells, last cell without samples) written by the "
                 "real code into one output directory that is then loaded with add_directory(completed_only in {False,True}) and also written "
                 "through a database session. A settings case is non-trivial when it has keywords or a tag; a scenario when its directory holds "
                 ">= 2 fit / grid-search folders. distinct = distinct abstract input")
@@ -1334,7 +1489,10 @@ def run(ctx):
         "ids are opaque strings; `f_reload_id` (md5 of the tokens of the reloaded search, reloaded model and tag) is an oracle value per folder",
         "theorems about scrape assume distinct identifiers (NoDup) and readable search settings; the cases outside are covered by the "
         "_refuted witnesses and by correspondence only",
-        "best fit of a grid search is stated as: a linked cell whose likelihood is maximal (ties: any)",
+        "best fit of a grid search is stated as: as soon as one linked cell holds a likelihood (any sign, 0.0, -inf), a linked cell whose "
+        "likelihood is maximal among the cells holding one (ties: any; best_fits() may list all tied cells and nothing else of that grid "
+        "search), through Fit.best_fit, the fit the aggregator hands out, and grid_searches().best_fits(), in the scraped and in the "
+        "session-written database; likelihoods enter the model as order-preserving integer keys (NaN is not generated)",
         "session route: the parent row of a fit with combined analyses is compared; its child fits are out of scope (a session "
         "creates one child named 'analyses/analysis_0' with its own identifier, the scraper one '<id>_<i>' per analyses folder); "
         "path_prefix is not compared (a scraped fit has none)",
@@ -1347,6 +1505,7 @@ def run(ctx):
     try:
         info = regenerate()
         INFO_VARIANT["v"] = info_variant(common.REPO)
+        BEST_FIT_VARIANT["v"] = best_fit_variant(common.REPO)
         ctx.translated = {"gs_id_uses_folder": {"source": info["gs_id_source"], "line": 0},
                           "fit_info_setter": {"source": INFO_VARIANT["v"], "line": 0}}
         for cl in info["classes"]:
@@ -1358,6 +1517,7 @@ def run(ctx):
         ctx.notes["code_variant"] = {
             "grid_search_id": "folder name (C11_grid applies)" if info["gs_id_uses_folder"] else "marker text: REGRESSION of d04d2bc (C11_grid no longer compiles)",
             "fit_info_setter": INFO_VARIANT["v"],
+            "fit_best_fit": BEST_FIT_VARIANT["v"],
             "drawer_pops_number_of_cores": any(cl["name"] == "Drawer" and "number_of_cores" in cl["chain"][0]["pops"] for cl in info["classes"]),
         }
     except TranslationError as e:
@@ -1432,6 +1592,8 @@ def run(ctx):
         else:
             for f in c["fits"]:
                 ctx.hist("fit_type", f["type"])
+                if f["type"] == "grid":
+                    ctx.hist("grid_profile", f.get("profile", "random-nonpositive"))
                 ctx.hist("search", f["search"]["cls"])
                 ctx.hist("layout", f["layout"])
                 if f.get("delete"):
@@ -1510,8 +1672,10 @@ def summary(ro):
     return {
         "fits": [{k: v for k, v in f.items() if k in ("identifier", "exc", "msg", "interrupted", "live_id")} for f in ro["fits"]],
         "directory": [{k: e.get(k) for k in ("rel", "metadata", "completed", "grid_marker", "parent_identifier", "description_md5")} | {"recomputed_id": (e.get("recomputed") or {}).get("id"), "recomputed_exc": (e.get("recomputed") or {}).get("exc")} for e in ro["directory"]],
-        "scrape": {"exc": sc.get("exc"), "msg": sc.get("msg"), "rows": [{k: f[k] for k in ("id", "name", "unique_tag", "is_complete", "is_grid_search", "parent_id", "children", "max_log_likelihood", "best_fit")} for f in sc.get("fits", [])]},
-        "direct": None if not ro.get("direct") else {"exc": ro["direct"].get("exc"), "rows": [{k: f[k] for k in ("id", "name", "is_complete", "is_grid_search", "parent_id", "children")} for f in ro["direct"].get("fits", [])]},
+        "scrape": {"exc": sc.get("exc"), "msg": sc.get("msg"), "best_fits_by_parent": sc.get("best_fits_by_parent"),
+                   "best_fit_via_aggregator": sc.get("best_fit_via_aggregator"), "rows": [{k: f[k] for k in ("id", "name", "unique_tag", "is_complete", "is_grid_search", "parent_id", "children", "max_log_likelihood", "best_fit")} for f in sc.get("fits", [])]},
+        "direct": None if not ro.get("direct") else {"exc": ro["direct"].get("exc"), "best_fits_by_parent": ro["direct"].get("best_fits_by_parent"),
+                                                      "rows": [{k: f.get(k) for k in ("id", "name", "is_complete", "is_grid_search", "parent_id", "children", "max_log_likelihood", "best_fit")} for f in ro["direct"].get("fits", [])]},
     }
 
 
@@ -1522,7 +1686,9 @@ MANIFEST = {
             "database under distinct identifiers; one row per fit folder holding its model/instance/samples/flag/info, id = folder name under "
             "an explicit faithful-reload hypothesis that the correspondence evaluates per folder; every generated search class reads back for "
             "every subset of its persisted-key universe; a second load keeps the first; grid parents linked "
-            "to exactly their cells with a maximal-likelihood best fit; agreement with the session route; a fit interrupted anywhere inside "
+            "to exactly their cells with a maximal-likelihood best fit -- Fit.best_fit as written (partial: every cell holds a likelihood and "
+            "one is above -inf; refuted outside), the best_fits() query (exactly the cells of highest likelihood) and the repaired Fit.best_fit "
+            "(total), for likelihood keys of every sign --; agreement with the session route; a fit interrupted anywhere inside "
             "save_all leaves the load unchanged), _refuted witnesses for the two "
             "defects of the pinned code, plus vm_compute correspondence with real fits written and loaded by the running code and a "
             "direct property oracle on every generated scenario",
